@@ -62,6 +62,8 @@ def run_scenario(ctx, report, name, spec, timeout_ms, gc=False, fuel=None):
             for s1 in sts:
                 del captured[:]
                 for s2, rec, _m in P.run_emit(s1, None, mref=mref):
+                    if pc.should_stop(I, vios):
+                        break
                     if rec is PANIC:
                         vios.append({'key': 'emit.panic', 'what': 'emit panics: %r' % (pc.pipeline_panic_events(s2)[:2],)})
                         continue
